@@ -315,7 +315,25 @@ class Check(Property):
                             v.append(f"C03 {ma} {ua} {name} {mb} {ub}: evaluated twice gives {first!r} then {second!r}")
                     except Exception:  # noqa: BLE001
                         pass
-        return v
+        # (4) in-place + and - agree with the plain forms on SCALAR magnitudes too: temperatures on offset scales, deltas, absolute
+        # scales, scaled units (same value and unit, or the same error)
+        f = regs.ureg("fraction")
+        names = ["kelvin", "degree_Celsius", "degree_Fahrenheit", "degree_Rankine", "delta_degree_Celsius", "delta_degree_Fahrenheit",
+                 "meter", "inch"]
+        for ua in names:
+            for ub in names:
+                for name, op, iop in (("+", operator.add, operator.iadd), ("-", operator.sub, operator.isub)):
+                    def out(fn):
+                        try:
+                            q = fn()
+                            return ("ok", Fraction(q.magnitude), str(q.units))
+                        except Exception as exc:  # noqa: BLE001
+                            return ("err", type(exc).__name__)
+                    plain = out(lambda: op(f.Quantity(Fraction(20), ua), f.Quantity(Fraction(10), ub)))
+                    inpl = out(lambda: iop(f.Quantity(Fraction(20), ua), f.Quantity(Fraction(10), ub)))
+                    if plain != inpl:
+                        v.append(f"C03 20 {ua} {name} 10 {ub}: the plain form gives {plain}, the in-place form {inpl}")
+        return v[:12]
 
     def oracle(self, c):
         import numpy as np
